@@ -74,6 +74,7 @@ def main(argv):
     tier = os.environ.get('VERIF_TIER', 'quick')
     repo_root = '/repo'
     make_ledger = False
+    no_evidence = False
     jobs = 16
     for a in argv:
         if a.startswith('--tier='):
@@ -84,6 +85,8 @@ def main(argv):
             tier = a
         elif a.startswith('--repo='):
             repo_root = a[7:]
+        elif a == '--no-evidence':
+            no_evidence = True
         elif a == '--make-ledger':
             make_ledger = True
         elif a.startswith('-j'):
@@ -113,7 +116,8 @@ def main(argv):
     known = load_known()
     ledger = load_ledger().get(pid)
     code, report = evaluate(pid, res, known, ledger, repo_root, tier)
-    write_evidence(pid, tier, seed, res, report, time.time() - t0, specs, repo_root)
+    if not no_evidence:
+        write_evidence(pid, tier, seed, res, report, time.time() - t0, specs, repo_root)
     for line in report['lines']:
         print(line)
     print('%s: obligations=%d discharged=%d failed=%d undecided=%d known=%d units=%d wall=%.1fs -> exit %d' % (
